@@ -353,6 +353,22 @@ def unload_shape() -> bool:
 	raise TranslateError(f'Modules.unload: unrecognised body {stmts}')
 
 
+def writer_shape() -> None:
+	"""file/writer.py Writer.flush: directory creation, then `try: self._flush(abs_filepath)` with the single retry clause (the clause itself
+	is classified by the audit: `.retry` = `time.sleep(0.1)` ; `self._flush(abs_filepath)`)."""
+	with open(os.path.join(REPO, 'rogw/tranp/file/writer.py'), encoding='utf-8') as f:
+		tree = ast.parse(f.read())
+	fn = _find_func(tree, 'Writer', 'flush')
+	body = [x for x in fn.body if not (isinstance(x, ast.Expr) and isinstance(x.value, ast.Constant))]
+	texts = [ast.unparse(x) if not isinstance(x, ast.Try) else 'TRY' for x in body]
+	if texts != ['abs_filepath = os.path.abspath(self.__filepath)', 'dirpath = os.path.dirname(abs_filepath)', 'if not os.path.exists(dirpath):\n    os.makedirs(dirpath)', 'TRY']:
+		raise TranslateError(f'Writer.flush: unrecognised body {texts}')
+	t = body[-1]
+	assert isinstance(t, ast.Try)
+	if [ast.unparse(x) for x in t.body] != ['self._flush(abs_filepath)'] or t.orelse or t.finalbody or len(t.handlers) != 1:
+		raise TranslateError('Writer.flush: the try statement is not `self._flush(abs_filepath)` with one except clause')
+
+
 def interactive_tables() -> dict[str, list[str]]:
 	path = os.path.join(REPO, 'rogw/tranp/bin/transpile.py')
 	with open(path, encoding='utf-8') as f:
@@ -689,6 +705,7 @@ def generate() -> list[dict[str, Any]]:
 			raise TranslateError(f'builtin {need} missing')
 	flags = {**render_tables(), **pflags, 'modulesUnloadCascades': unload_shape()}
 	audit = audit_clauses()
+	writer_shape()
 	changed = write_if_changed(OUT, render(errs, bis, tables, flags, audit))
 	return [{
 		'file': os.path.relpath(OUT, os.path.dirname(GENERATED_DIR)),
